@@ -1769,6 +1769,18 @@ var c11edges = []string{
 	"S:pub func foo.w32?(dst: base.io_writer) {\n    args.dst.write_u32be?(a: 7)\n}",
 	"S:pub func foo.w64?(dst: base.io_writer) {\n    args.dst.write_u64le?(a: 7)\n    args.dst.write_u8?(a: 7)\n}",
 	"S:pub func foo.isz() base.bool {\n    return this.x == 0\n}",
+	// struct fields of struct type: declaration order and cycles, through 0..3 array levels
+	"R:pub struct outer?(\n    c : inner,\n)\n\npub struct inner?(\n    x : base.u8,\n)\n",
+	"R:pub struct outer?(\n    c : array[2] inner,\n)\n\npub struct inner?(\n    x : base.u8,\n)\n",
+	"R:pub struct outer?(\n    c : array[2] array[3] inner,\n)\n\npub struct inner?(\n    x : base.u8,\n)\n",
+	"R:pub struct outer?(\n    c : array[2] array[3] array[4] inner,\n)\n\npri struct inner?(\n    x : base.u8,\n)\n",
+	"R:pub struct outer?(\n    c : array[2] array[3] mid,\n)\n\npri struct mid?(\n    d : array[2] array[2] inner,\n)\n\npri struct inner?(\n    x : base.u8,\n)\n",
+	"R:pub struct foo?(\n    c : foo,\n)\n",
+	"R:pub struct foo?(\n    c : array[2] foo,\n)\n",
+	"R:pub struct foo?(\n    c : array[2] array[2] foo,\n)\n",
+	"R:pub struct foo?(\n    c : array[2] array[2] array[2] foo,\n)\n",
+	"R:pub struct a?(\n    c : array[2] array[2] b,\n)\n\npub struct b?(\n    d : array[1] array[1] a,\n)\n",
+	"R:pub struct a?(\n    c : array[2] array[2] b,\n)\n\npub struct b?(\n    d : a,\n)\n",
 	// iterate
 	"F:    iterate ()(length: 1, advance: 1, unroll: 1) {\n    }",
 	"F:    iterate (it = args.data)(length: 1, advance: 1, unroll: 1) {\n    }",
@@ -2363,6 +2375,34 @@ func C11D(rc *vk.Rec) {
 			src, k, d := c11synthLit(r)
 			c = c11alone(phase, idx, "lit", k, d, []byte(src))
 		}
+		e.exec(c, false)
+	}
+
+	// quoted literals: every sequence of up to three pieces from a small
+	// alphabet of plain characters and complete, truncated and malformed escape
+	// sequences, in single and double quotes, with and without the endianness
+	// suffix (enumerated, not sampled: the tokenizer's escape handling has one
+	// length guard per escape kind)
+	phase = "quoted"
+	e.budget("quoted", 2, 1, 60, 20)
+	pieces := []string{"a", "\\x", "\\x4", "\\x41", "\\x4g", "\\xG1", "\\\\", "\\'", "\\\"", "\\n", "\\", "\\u", "\\0", "'", "\"", "\x80", " "}
+	var bodies []string
+	for _, a := range pieces {
+		bodies = append(bodies, a)
+		for _, b := range pieces {
+			bodies = append(bodies, a+b)
+			for _, c := range pieces {
+				bodies = append(bodies, a+b+c)
+			}
+		}
+	}
+	forms := []string{"pri const C : base.u32 = '%s'be\n", "pri const C : base.u32 = '%s'\n", "pub status \"#%s\"\n", "pri const C : base.u32 = '%s'le // c\n", "'%s"}
+	for idx := int64(0); idx < int64(len(bodies)*len(forms)); idx++ {
+		if rc.SkipCase(phase, idx) || (rc.Only < 0 && int(idx)%rc.NShards != rc.Shard) {
+			continue
+		}
+		body, form := bodies[int(idx)/len(forms)], forms[int(idx)%len(forms)]
+		c := c11alone(phase, idx, "quoted", "quoted-literal", fmt.Sprintf("%q in %q", body, form), []byte(fmt.Sprintf(form, body)))
 		e.exec(c, false)
 	}
 	e.flushCPU()
